@@ -49,6 +49,7 @@ type specCtx struct {
 	letExprs  map[string]ast.Expr
 	letBusy   map[string]bool
 	addrVars  map[string]PtrV
+	noGhost   bool // evaluating a callee's contract at a call site: its ghost event queries are not visible here
 	head      *headSnap
 	envOver   map[string]envEntry // when set, replaces the frame's variable environment
 }
@@ -529,6 +530,14 @@ func (x *Exec) specEqual(a, b Value) Term {
 		}
 		panic(engineErr("nil comparison on %T", a))
 	}
+	// comparing an interface value with a concrete one: box the concrete value (as Go's == does)
+	if _, ok := a.(IfaceV); ok {
+		if _, ok2 := b.(IfaceV); !ok2 && b.GoType() != nil {
+			b = x.makeIface(x.scratch(), b, b.GoType(), a.GoType())
+		}
+	} else if _, ok := b.(IfaceV); ok && a.GoType() != nil {
+		a = x.makeIface(x.scratch(), a, a.GoType(), b.GoType())
+	}
 	fa, fb := x.flatten(a), x.flatten(b)
 	if len(fa) != len(fb) {
 		panic(engineErr("spec equality on differently shaped values %T vs %T", a, b))
@@ -766,13 +775,25 @@ func (x *Exec) evalSpecCall2(sc *specCtx, e *ast.CallExpr) Value {
 		z := zeroOfSort(a.Sort)
 		return Scalar{ite(mk(SBool, ">=", a, z), a, mk(a.Sort, "-", a)), arg(0).GoType()}
 	case "calls":
+		if sc.noGhost {
+			return PoisonV{}
+		}
 		return Scalar{x.ghostCalls(sc, e.Args), types.Typ[types.Int]}
 	case "ret", "arg", "panicked", "happened":
+		if sc.noGhost {
+			return PoisonV{}
+		}
 		return x.ghostEventQuery(sc, name, e.Args)
 	case "before":
 		need(2)
+		if sc.noGhost {
+			return PoisonV{}
+		}
 		return Scalar{x.ghostBefore(sc, e.Args[0], e.Args[1]), boolT}
 	case "nevents":
+		if sc.noGhost {
+			return PoisonV{}
+		}
 		return Scalar{intLit(int64(len(sc.st.events) - sc.evFrom)), types.Typ[types.Int]}
 	case "panicking":
 		return Scalar{boolLit(sc.panicking), boolT}
@@ -1562,3 +1583,6 @@ func roundToFloat64(r *big.Rat) *big.Rat {
 	}
 	return out
 }
+
+// scratch: a throw-away state for operations that only need to build terms (boxing of scalars).
+func (x *Exec) scratch() *State { return newState() }
